@@ -30,6 +30,7 @@ def body_factory(tier, seed):
                                                            "observation": obs, "info": info})
             return
         GD.run_cases(rep, cases, PROP, PROP, ORACLE, async_modes=modes, view=VIEW, kinds=KINDS)
+        GD.run_repeats(rep, cases, PROP, ("skip", "payload-skip", "bad-req", "bad-res"))
         # the outbound half (call()): histories on a real endpoint under the virtual clock
         from harness import gen_history as GH
         hs = GH.HGen(tier, seed).all()[: (30 if tier == "quick" else 300)]
@@ -72,6 +73,8 @@ def run(rep, tier, seed):
 
 
 def replay(d):
+    if d.get("kind") == "repeat":
+        return GD.replay_repeat(d)
     from harness import impl_dispatch as D
     raw = d["frame"] if isinstance(d["frame"], str) else bytes.fromhex(d["frame"]["hex"])
     routes = d["routes"]
